@@ -59,11 +59,8 @@ _Q = ('quick', 'thorough')
 INSTANCES = [
     exc(1, 1, cost=1, mask=3, tiers=_Q),
     exc(1, 2, cost=1, mask=2, nest=1, ctx=0, tiers=_Q),
-    exc(1, 2, cost=1, mask=2, nest=1, ctx=0, tiers=('exp',), tag='_x0', xdefs={'VF_NMASK': 0}),
-    exc(1, 2, cost=1, mask=2, nest=1, ctx=0, tiers=('exp',), tag='_x1', xdefs={'VF_NMASK': 1}),
-    dict(exc(1, 2, cost=1, mask=2, nest=1, ctx=0, tiers=('prep',), tag='_v1', xdefs={'VF_NMASK': 1, 'VF_XV': 1}), timeout=3),
-    dict(exc(1, 2, cost=1, mask=2, nest=1, ctx=0, tiers=('prep',), tag='_v2', xdefs={'VF_NMASK': 1, 'VF_XV': 2}), timeout=3),
-    dict(exc(1, 2, cost=1, mask=2, nest=1, ctx=0, tiers=('prep',), tag='_v3', xdefs={'VF_NMASK': 1, 'VF_XV': 3}), timeout=3),
+    exc(0, 1, mask=2, nest=1, ctx=0),
+    exc(1, 1, cost=1, mask=3, nest=1),
     # thorough tier (defined, not run in this round): other set kind / pool sizes / bulk shapes / two completion calls
     exc(0, 1, mask=3), exc(1, 1, cost=0, mask=3), exc(1, 2, cost=1, mask=12), exc(0, 2, mask=12), exc(1, 2, cost=0, mask=12),
     exc(0, 0, mask=15), exc(1, 0, cost=1, mask=15), exc(1, 1, cost=1, mask=3, nwait=2), exc(0, 1, mask=15, nwait=2),
